@@ -147,7 +147,7 @@ Section OldId20.
   Definition old_table : list (entry (old_remote + old_local2)) :=
     [ {| e_id := 20; e_dec := dec_map inl dec_old_remote |}; {| e_id := 20; e_dec := dec_map inr dec_old_local2 |} ].
 
-  Example C19_old_id20_refuted :
+Example C19_old_id20_refuted :
     exists m : old_local2,
       dec_old_local2 (enc_old_local2 m) = Some (m, []) /\
       from_vec 131072 old_table (enc_u16 20 ++ enc_old_local2 m) <> Some (Known (inr m)).
